@@ -92,9 +92,11 @@ def transportOf (lower : String → String) (raw : RawConfig) : Transport :=
 /-- `remote.KeepAlive` after the KeepAlive statement.  The second argument of the extracted terms is the
 value of the *destination* field `remote.KeepAlive` at that point: it has not been assigned before
 (`Gen.ClientCfg.keepAliveEarlierAssignments = 0`), so it is the zero value. `time.Duration` arithmetic wraps. -/
-def keepAliveOf (raw : RawConfig) : Int :=
+def keepAliveWith (onVal : Int → Int → Int) (raw : RawConfig) : Int :=
   if Gen.ClientCfg.keepAliveOffCond raw.keepAlive then wrap64 (Gen.ClientCfg.keepAliveOffVal raw.keepAlive 0)
-  else wrap64 (Gen.ClientCfg.keepAliveOnVal raw.keepAlive 0)
+  else wrap64 (onVal raw.keepAlive 0)
+
+def keepAliveOf (raw : RawConfig) : Int := keepAliveWith Gen.ClientCfg.keepAliveOnVal raw
 
 def timeoutOf (raw : RawConfig) : Int :=
   if Gen.ClientCfg.timeoutDefaultCond raw.streamTimeout then wrap64 (Gen.ClientCfg.timeoutDefaultVal raw.streamTimeout)
@@ -107,8 +109,8 @@ def numConnOf (raw : RawConfig) : Int × Bool :=
 def mockList (raw : RawConfig) : List String :=
   raw.alternativeNames.filter (fun n => Gen.ClientCfg.altNameKept (n.utf8ByteSize : Nat)) ++ [raw.serverName]
 
-/-- `ProcessRawConfig`, the early returns in source order -/
-def processRaw (lower : String → String) (raw : RawConfig) : Except Err Cfg :=
+/-- `ProcessRawConfig`, the early returns in source order; `ka` computes `remote.KeepAlive` -/
+def processRawK (ka : RawConfig → Int) (lower : String → String) (raw : RawConfig) : Except Err Cfg :=
   if raw.serverName = "" then .error (.empty "ServerName")
   else if raw.proxyMethod = "" then .error (.empty "ProxyMethod")
   else if raw.uid.length = 0 then .error (.empty "UID")
@@ -127,7 +129,7 @@ def processRaw (lower : String → String) (raw : RawConfig) : Except Err Cfg :=
       mockDomainList := mockList raw
       singleplex := (numConnOf raw).2
       numConn := (numConnOf raw).1
-      keepAlive := keepAliveOf raw
+      keepAlive := ka raw
       remoteAddr := joinHostPort raw.remoteHost raw.remotePort
       transport := transportOf lower raw
       uid := raw.uid
@@ -136,6 +138,9 @@ def processRaw (lower : String → String) (raw : RawConfig) : Except Err Cfg :=
       unordered := raw.udp
       serverPubKey := raw.publicKey
       mockDomain := raw.serverName }
+
+/-- `ProcessRawConfig` with the KeepAlive statement of the tree being checked -/
+def processRaw (lower : String → String) (raw : RawConfig) : Except Err Cfg := processRawK keepAliveOf lower raw
 
 /-! ### `ssvToJson` on `List Char` -/
 
